@@ -14,7 +14,7 @@ RULE = ("TC19 messages built field by field from the DO-260B layout: subtype 1-4
         "(boundary {0,1,2,1022,1023} + uniform; each 10-bit field also swept exhaustively 0..1023 per subtype with the rest random) x VrSrc x sign x "
         "VR (9 bits) x difference sign x difference (7 bits); surface: all 128 movement x 2 status x 128 track codes (exhaustive) x TC 5-8. "
         "velocity / airborne_velocity / surface_velocity / speed_heading / altitude_diff with and without source=True. Oracle: the encoded quantities "
-        "(speed within 1 kt of hypot, track atan2 to 1e-9, heading N*360/1024 iff status, airspeed N-1 (x4) or None iff N=0, VR +-(N-1)*64 or None, "
+        "(speed between the integers enclosing the exact norm and equal to it for whole-knot norms - leg whole_knots has all of them -, track atan2 to 1e-9, heading N*360/1024 iff status, airspeed N-1 (x4) or None iff N=0, VR +-(N-1)*64 or None, "
         "difference +-(N-1)*25 or None iff N=0 (N=127 unconstrained), movement bin of DO-260B table, track N*360/128 iff status). "
         "non-trivial = a zero field, a sign bit set, a supersonic subtype, heading status 0, or a movement breakpoint"
         ' Also: helper calls on the same string first, one constant context per sweep, 965 real velocity frames judged by the reference field decoding (leg corpus).')
@@ -54,9 +54,8 @@ def expected_air(c):
             return None
         vew = (-1 if c["s1"] else 1) * (c["f1"] - 1) * mult
         vns = (-1 if c["s2"] else 1) * (c["f2"] - 1) * mult
-        h = math.hypot(vew, vns)
         trk = math.degrees(math.atan2(vew, vns)) % 360.0
-        return (("near", h), ("angle", trk), vs, "GS", "TRUE_NORTH", src)
+        return (("bracket", vew * vew + vns * vns), ("angle", trk), vs, "GS", "TRUE_NORTH", src)
     hdg = c["f1"] * 360.0 / 1024 if c["s1"] else None
     spd = None if c["f2"] == 0 else (c["f2"] - 1) * mult
     return (("exact", spd), ("angle", hdg) if hdg is not None else ("exact", None), vs, "TAS" if c["s2"] else "IAS", "MAGNETIC_NORTH", src)
@@ -68,8 +67,12 @@ def match(chk, v):
         return (v is None) if exp is None else (v is not None and not isinstance(v, str) and v == exp)
     if v is None or isinstance(v, (str, bool)):
         return False
-    if kind == "near":
-        return abs(v - exp) < 1 + 1e-9
+    if kind == "bracket":
+        # exp = vx^2 + vy^2 exactly (integers): the reported speed lies between the integers that enclose the true norm, and equals the
+        # norm when that is a whole number of knots (3-4-5 triangles)
+        lo = math.isqrt(exp)
+        hi = lo if lo * lo == exp else lo + 1
+        return lo - 1e-9 <= v <= hi + 1e-9
     return angle_close(v, exp)
 
 
@@ -93,7 +96,8 @@ def chk_air(c, note):
             if not isinstance(v, tuple) or len(v) != n:
                 return "%s = %r, expected a %d-tuple (subtype %d, fields %d/%d, status/sign bits %d/%d)" % (tag, v, n, c["st"], c["f1"], c["f2"], c["s1"], c["s2"])
             if not (match(exp[0], v[0]) and match(exp[1], v[1]) and match(("exact", exp[2]), v[2]) and v[3] == exp[3]):
-                return "%s = %r, encoded speed %r angle %r vertical rate %r type %s" % (tag, v, exp[0][1], exp[1][1], exp[2], exp[3])
+                return "%s = %r, encoded speed %s angle %r vertical rate %r type %s" % (
+                    tag, v, ("sqrt(%d) = %.6f" % (exp[0][1], math.sqrt(exp[0][1]))) if exp[0][0] == "bracket" else repr(exp[0][1]), exp[1][1], exp[2], exp[3])
             if source and (v[4] != exp[4] or v[5] != exp[5]):
                 return "%s = %r, encoded direction reference %s, vertical-rate source %s" % (tag, v, exp[4], exp[5])
     r = call(pms.adsb.speed_heading, msg)
@@ -212,6 +216,35 @@ def chk_surface(c, note):
     return None
 
 
+_WHOLE = []
+
+
+def whole_pairs():
+    """every pair of component magnitudes (0..1022 kt) whose norm is a whole number of knots: the speed must then be reported exactly"""
+    if not _WHOLE:
+        for a in range(0, 1023):
+            for b in range(a, 1023):
+                n2 = a * a + b * b
+                r = math.isqrt(n2)
+                if r * r == n2 and (a > 0 or b % 97 == 0):
+                    _WHOLE.append((a, b))
+    return _WHOLE
+
+
+def enum_whole(ctx):
+    idx = 0
+    for (a, b) in whole_pairs():
+        for (x, y) in ((a, b), (b, a)):
+            for signs in range(4):
+                for stp in (1, 2):
+                    idx += 1
+                    if ctx.mine(idx):
+                        rng = ctx.rng("whole", x, y, signs, stp)
+                        yield {"st": stp, "ic": rng.getrandbits(1), "ifr": rng.getrandbits(1), "nac": rng.getrandbits(3), "s1": signs & 1, "f1": x + 1, "s2": signs >> 1, "f2": y + 1,
+                               "vrsrc": rng.getrandbits(1), "vrsign": rng.getrandbits(1), "vr": rng.randint(0, 511), "rsv": rng.getrandbits(2), "dsign": rng.getrandbits(1),
+                               "diff": rng.randint(0, 127), "ctx_addr": rng.getrandbits(24), "ctx_ca": rng.getrandbits(3), "df": rng.choice([17, 18]), "hc": rng.choice("ULM")}
+
+
 def enum_corpus(ctx):
     from vlib import corpus
     for start, _ in corpus.blocks(corpus.adsb(), ctx):
@@ -239,8 +272,8 @@ def chk_corpus(case, note):
                 return "velocity(%s) = %r, expected None (real frame with an unavailable component)" % (m, r[1])
         elif not (isinstance(r[1], tuple) and len(r[1]) == 6 and match(exp[0], r[1][0]) and match(exp[1], r[1][1]) and match(("exact", exp[2]), r[1][2])
                   and r[1][3:] == (exp[3], exp[4], exp[5])):
-            return "velocity(%s, source=True) = %r; the fields of this real frame mean speed %r angle %r vertical rate %r %s %s %s" % (
-                m, r[1], exp[0][1], exp[1][1], exp[2], exp[3], exp[4], exp[5])
+            return "velocity(%s, source=True) = %r; the fields of this real frame mean speed %s angle %r vertical rate %r %s %s %s" % (
+                m, r[1], ("sqrt(%d)" % exp[0][1]) if exp[0][0] == "bracket" else repr(exp[0][1]), exp[1][1], exp[2], exp[3], exp[4], exp[5])
         n += 1
     note.evals = max(1, n)
     note.cls("real-tc19")
@@ -251,6 +284,7 @@ def chk_corpus(case, note):
 LEGS = [
     Leg("corpus", chk_corpus, enum=enum_corpus, exhaustive=True, doc="965 real airborne velocity frames judged by the reference field decoding"),
     Leg("surface", chk_surface, enum=enum_surface, exhaustive=True, doc="all 128 movement x 2 status x 128 track codes"),
+    Leg("whole_knots", chk_air, enum=enum_whole, exhaustive=True, doc="every pair of component magnitudes whose norm is a whole number of knots (Pythagorean pairs, axes) x sign bits x subtype 1/2: speed exact"),
     Leg("airborne_sweep", chk_air, enum=enum_air_sweep, exhaustive=True, doc="each TC19 field swept over its whole range per subtype, other fields random"),
     Leg("airborne", chk_air, strategy=s_air, quick=30000, thorough=1200000, doc="boundary-biased TC19 field combinations"),
 ]
